@@ -84,6 +84,10 @@ pub fn cb_counts() -> [u64; 4] {
 
 const JUMP_NS: u64 = 1 << 50;
 pub const TOTAL_CB_CAP: u64 = 5_000_000;
+/// The cap in force (callbacks per rig lifetime). The bounded path explorations lower it: a sequence of at
+/// most five samples needs a few hundred thousand callbacks at the finest resolution, and a tree on which
+/// every execution runs into the cap is then explored in minutes instead of hours.
+pub static CB_CAP: std::sync::atomic::AtomicU64 = std::sync::atomic::AtomicU64::new(TOTAL_CB_CAP);
 
 #[inline]
 fn on_cb(kind: Cb) -> u64 {
@@ -114,7 +118,7 @@ fn on_cb(kind: Cb) -> u64 {
     }
     // hard cap on callbacks per rig lifetime: a loop that never ends but keeps calling back is
     // turned into an attributable unwinding instead of a hang (and of unbounded log growth)
-    if j > TOTAL_CB_CAP {
+    if j > CB_CAP.load(std::sync::atomic::Ordering::Relaxed) {
         std::panic::panic_any(WorkCapHit(j));
     }
     if kind == Cb::Valid {
